@@ -13,8 +13,9 @@ from vf.plan import Ob
 from props import c01, graph  # c01 sets up the environment
 
 NAMES = ["a.wav", "réc ording 1.WAV", "sub dir/ünï/x y.wav", "deep/er/and/deeper/f.flac"]
-DIRS = ["/data/audio", "/data/audio/site A", "/mnt/é x/audio"]
+DIRS = ["/data/audio", "/data/audio/site A", "/mnt/é x/audio", "audio", "rel dir/audio"]
 OUTSIDE = ["/elsewhere/a.wav", "/data/audio2/a.wav", "/data/a.wav"]
+OUTSIDE_REL = ["elsewhere/a.wav", "audio2/a.wav", "a.wav"]
 
 
 def _doc_paths(doc):
@@ -36,7 +37,7 @@ def ob_paths(in0: bool, in1: bool, as_str: bool, load_str: bool, relocate: bool,
     k0 = [k for k in range(4) if n0 == k][0]
     name0 = NAMES[k0]
     name1 = NAMES[(k0 + 1) % 4]
-    out = OUTSIDE[k0 % 3]
+    out = (OUTSIDE if A.startswith("/") else OUTSIDE_REL)[k0 % 3]
     p0 = (A + "/" + name0) if in0 else out
     p1 = (A + "/r1/" + name1) if in1 else (out + ".1.wav")
     b_builder_paths = {0: p0, 1: p1}
@@ -140,9 +141,13 @@ def plan():
                       dict(coll=coll, with_dir=False, dirA=0, dirB=1), q, twins=("ok",), twin_timeout=200))
         obs.append(Ob("%s-outside-writes-nothing" % coll, ob_rejected_writes_nothing, "real", 300, dict(coll=coll), q,
                       twins=("rejected",), twin_timeout=200))
-        for a in range(3):
-            for b in range(3):
-                if (a, b) == (ci % 3, (ci + 1) % 3):
+        # relative audio directory and relative recording paths
+        obs.append(Ob("%s-with-relative-dir" % coll, ob_paths, "real", 900,
+                      dict(coll=coll, with_dir=True, dirA=3 + ci % 2, dirB=ci % 3),
+                      q if ci % 3 == 0 else ("thorough",), twins=("ok", "rejected"), twin_timeout=200))
+        for a in range(5):
+            for b in range(5):
+                if (a, b) in ((ci % 3, (ci + 1) % 3), (3 + ci % 2, ci % 3)):
                     continue
                 obs.append(Ob("%s-with-dir-%d%d" % (coll, a, b), ob_paths, "real", 900,
                               dict(coll=coll, with_dir=True, dirA=a, dirB=b), ("thorough",), twins=("ok",),
@@ -158,8 +163,8 @@ INFO = dict(
     ],
     bounds="all eight collection types; two recordings each symbolically inside or outside the audio directory; "
     "audio directory given as str or Path on save and on load; load under the same or another directory; file names "
-    "from a fixed list with unicode, spaces and nesting up to depth 4; directories of depth 2-3",
+    "from a fixed list with unicode, spaces and nesting up to depth 4; directories of depth 1-3, absolute and relative (recordings relative as well)",
     trusted_base=["models/pyd.py", "pathlib (real, executed concretely)", "document file replaced by an in-memory cell",
                   "CrossHair 0.0.110 + z3 (choices only; the path strings are concrete)"],
-    outside=["relative audio directories / recordings with relative paths", "Windows path flavours", "symlinks"],
+    outside=["Windows path flavours", "symlinks", "'..' components"],
 )
